@@ -23,7 +23,7 @@ Event(ev) ==
     CASE ev.ev = "Arrive" -> Arrive(ev.e)
       [] ev.ev = "UpRelease" -> UpRelease(ev.e) /\ rc'[ev.e] = ev.count
                                 /\ (ev.fired <=> (Len(fired') > Len(fired)))
-      [] ev.ev = "CbEmit" -> RlEmit(ev.e)
+      [] ev.ev = "CbEmit" -> RlEmit(ev.e) /\ ev.md = <<ev.e>>
       [] ev.ev = "ConsumerDone" -> ConsumerDone(ev.e)
       [] ev.ev = "Release" -> RlRelease(ev.e) /\ rc'[ev.e] = ev.count
                               /\ (ev.fired <=> (Len(fired') > Len(fired)))
